@@ -59,7 +59,7 @@ def opsCmd (ws : List String) : Option String :=
       | "mkdir", [] => some PathCall.createDirectory
       | "rmdir", [] => some PathCall.removeDirectory
       | "unlink", [] => some PathCall.unlinkFile
-      | "stat", [] => some PathCall.filestatGet
+      | "stat", [fl] => fl.toNat?.map PathCall.filestatGet
       | "readlink", [n] => n.toNat?.map PathCall.readlink
       | _, _ => none
     let (tbl, idx) := mkTable [slot]
